@@ -63,6 +63,46 @@ pub fn patterns(sys: &System, policy: Policy, pre: Preempt, ok: &[Option<u64>], 
             }
         }
     }
+    // EDF: the worst case of a job is offset-specific — its absolute deadline must line up with the
+    // deadlines of the other tasks' jobs. For every analysed task try the shifts that align its
+    // deadline with one of the first releases of each other task (with and without a blocker).
+    if policy == Policy::EDF {
+        for (i, r) in ok.iter().enumerate() {
+            if r.is_none() {
+                continue;
+            }
+            let mut shifts: Vec<u64> = vec![];
+            for (o, ot) in sys.tasks.iter().enumerate() {
+                if o == i {
+                    continue;
+                }
+                let sep = crate::model::uni::mean_separation(&ot.arr).max(1);
+                for k in 0..4u64 {
+                    // other task's k-th dense release is at about k*sep; deadline k*sep + D_o
+                    let target = k * sep + ot.deadline;
+                    if target >= sys.tasks[i].deadline {
+                        shifts.push(target - sys.tasks[i].deadline);
+                    }
+                }
+            }
+            shifts.sort_unstable();
+            shifts.dedup();
+            let own_sep = crate::model::uni::mean_separation(&sys.tasks[i].arr).max(1);
+            let blocker = (0..sys.tasks.len())
+                .filter(|b| *b != i && sys.tasks[*b].deadline > sys.tasks[i].deadline && sys.tasks[*b].max_np(pre) > 1)
+                .max_by_key(|b| sys.tasks[*b].max_np(pre));
+            for sh in shifts.into_iter().filter(|s| *s > 0 && *s < 400).take(10) {
+                v.push((Pattern::Shifted { task: i, shift: sh, blocker: None }, i));
+                // variant with earlier jobs of the analysed task in the same busy window
+                if sh >= own_sep {
+                    v.push((Pattern::Shifted { task: i, shift: sh % own_sep, blocker: None }, i));
+                }
+                if pre != Preempt::Full && blocker.is_some() {
+                    v.push((Pattern::Shifted { task: i, shift: sh, blocker }, i));
+                }
+            }
+        }
+    }
     let (nd, nr) = match tier {
         Tier::Quick => (2, 6),
         Tier::Thorough => (4, 16),
@@ -103,10 +143,10 @@ impl Monitor for SafetyUni {
     }
     fn cases(&self, tier: Tier) -> u64 {
         match (tier, self.policy) {
-            (Tier::Quick, Policy::FIFO) => 6000,
-            (Tier::Quick, _) => 2500,
-            (Tier::Thorough, Policy::FIFO) => 200_000,
-            (Tier::Thorough, _) => 80_000,
+            (Tier::Quick, Policy::FIFO) => 30_000,
+            (Tier::Quick, _) => 10_000,
+            (Tier::Thorough, Policy::FIFO) => 600_000,
+            (Tier::Thorough, _) => 150_000,
         }
     }
     fn required_counters(&self) -> Vec<&'static str> {
